@@ -32,6 +32,7 @@ def run(ctx):
     rule_binding(ctx)
     rule_strictness(ctx)
     rule_forward(ctx)
+    rule_version_in_scope(ctx)
     rule_detect(ctx)
 
 
@@ -223,3 +224,141 @@ def rule_detect(ctx):
         run.check(okl, R, key(fi.module.relpath, fi.qualname, "lookup-uses-version"), "class lookup ignores the version",
                   file=fi.module.relpath, line=fi.node.lineno, function=fi.qualname,
                   expected="class_for_type(type, version, category)", found=[short(c) for c in look])
+
+
+# call sites where a version is in scope and deliberately not passed on: (caller id, callee id) -> reason
+VERSION_NOT_FORWARDED_OK = {
+    ("stix2.properties::STIXObjectProperty.clean", "stix2.parsing::parse"):
+        "bundle members are detected individually (a 2.1 bundle may hold members tagged otherwise); a 2.0 bundle refuses 2.1 "
+        "members explicitly -- checked by C14.forward v20-bundle-refuses-v21-members",
+}
+
+
+def scope_version(prog, fi):
+    """where the spec version in force comes from at this function: its own parameter, the property object's attribute,
+    or the version package the code lives in"""
+    ps = [p for p in fi.all_param_names() if p in VERSION_PARAMS]
+    if ps:
+        return "param", ps[0]
+    if fi.cls is not None:
+        for k in fi.cls.mro:
+            init = k.methods.get("__init__")
+            if init is None:
+                continue
+            for n in body_walk(init.node):
+                if isinstance(n, ast.Assign) and isinstance(n.targets[0], ast.Attribute) and norm(n.targets[0]) == "self.spec_version":
+                    return "selfattr", "spec_version"
+    return module_version(fi.module)
+
+
+def module_version(mod):
+    parts = mod.name.split(".")
+    if "v20" in parts:
+        return "module", "2.0"
+    if "v21" in parts:
+        return "module", "2.1"
+    return None
+
+
+def rule_version_in_scope(ctx, rule_id="C14.version-in-scope", only_callees=None):
+    """Generalisation of the frozen chains above: at EVERY resolved call site where the caller knows the spec version in
+    force and the callee takes one, the callee's version parameter is bound to it.  An omitted argument silently means
+    "the library default" (2.1) or "detect"."""
+    run = ctx.run
+    prog = ctx.prog
+    cg = get_callgraph(prog)
+    from ..tableeval import Evaluator
+    default = Evaluator(prog, allow_dyn=True).eval(prog.module("stix2.version").scope.lookup_local("DEFAULT_VERSION").value,
+                                                    prog.module("stix2.version").scope)
+    n = 0
+    for fi in sorted(prog.functions.values(), key=lambda f: f.id):
+        if "/test/" in fi.module.relpath or fi.module.relpath.startswith("stix2/test"):
+            continue
+        sv = scope_version(prog, fi)
+        if sv is None:
+            continue
+        for call in cg.calls_in(fi):
+            ts = [t for t in cg.resolve(call, fi) if t.func is not None and t.kind in (EXACT, CHA)]
+            if len(ts) != 1:
+                continue
+            t = ts[0]
+            vp = [p for p in VERSION_PARAMS if p in t.func.all_param_names()]
+            if not vp:
+                continue
+            if only_callees is not None and t.func.id not in only_callees:
+                continue
+            n += 1
+            c = key(fi.module.relpath, fi.qualname, "%s:%s" % (short(call, 70), vp[0]))
+            b = cg.bind(call, t)
+            e = b.params.get(vp[0])
+            if e is None:
+                why = VERSION_NOT_FORWARDED_OK.get((fi.id, t.func.id))
+                if why or (sv == ("module", default)):
+                    run.ok(rule_id, c)
+                    continue
+                run.violation(rule_id, c, "%s knows the spec version in force (%s %s) but calls %s without it: the callee falls back "
+                              "to the library default (%s) / detection, so content of the other version is judged by the wrong "
+                              "rules" % (fi.qualname, sv[0], sv[1], t.func.id, default), file=fi.module.relpath, line=call.lineno,
+                              function=fi.qualname, expected="%s=<the version in force>" % vp[0], found="omitted")
+                continue
+            if sv[0] == "module":
+                ok = isinstance(e, ast.Constant) and e.value == sv[1]
+                if not ok:
+                    pr = flow_of(fi).prov(e)
+                    ok = bool(pr.params & set(VERSION_PARAMS))
+                found = norm(e)
+            else:
+                pr = flow_of(fi).prov(e)
+                ok = (sv[1] in pr.params) if sv[0] == "param" else (sv[1] in pr.selfattrs)
+                found = repr(pr)
+            run.check(ok, rule_id, c, "the version handed to %s is not the version in force at this call site" % t.func.id,
+                      file=fi.module.relpath, line=call.lineno, function=fi.qualname, expected="%s %s" % sv, found=found)
+    # class bodies of the version packages: property tables are built there
+    from ..loader import ClassInfo, FunctionInfo
+    for mod in sorted(prog.modules.values(), key=lambda m: m.name):
+        mv = module_version(mod)
+        if mv is None or mod.relpath.startswith("stix2/test"):
+            continue
+        for cls in [k for k in prog.classes.values() if k.module is mod]:
+            for node in cls.node.body:
+                if isinstance(node, (ast.FunctionDef, ast.AsyncFunctionDef, ast.ClassDef)):
+                    continue
+                for call in [x for x in ast.walk(node) if isinstance(x, ast.Call)]:
+                    d = prog.deref(prog.resolve_expr(cls.scope if hasattr(cls, "scope") else mod.scope, call.func)) \
+                        if isinstance(call.func, (ast.Name, ast.Attribute)) else None
+                    target = None
+                    if isinstance(d, ClassInfo):
+                        for k in d.mro:
+                            if "__init__" in k.methods:
+                                target = k.methods["__init__"]
+                                break
+                    elif isinstance(d, FunctionInfo):
+                        target = d
+                    if target is None:
+                        continue
+                    vp = [p for p in VERSION_PARAMS if p in target.all_param_names()]
+                    if not vp:
+                        continue
+                    if only_callees is not None and target.id not in only_callees:
+                        continue
+                    n += 1
+                    kw = {k.arg: k.value for k in call.keywords if k.arg}
+                    e = kw.get(vp[0])
+                    if e is None:
+                        # positional binding
+                        params = [p for p in target.params if p != "self"]
+                        if vp[0] in params and params.index(vp[0]) < len(call.args):
+                            e = call.args[params.index(vp[0])]
+                    c = key(mod.relpath, cls.qualname, "%s:%s" % (short(call, 70), vp[0]))
+                    if e is None:
+                        run.check(mv[1] == default, rule_id, c, "a STIX %s class builds %s without naming its spec version: the "
+                                  "property validates by the library default (%s) rules" % (mv[1], short(call.func), default),
+                                  file=mod.relpath, line=call.lineno, function=cls.qualname,
+                                  expected="%s='%s'" % (vp[0], mv[1]), found="omitted")
+                    else:
+                        run.check(isinstance(e, ast.Constant) and e.value == mv[1], rule_id, c,
+                                  "a STIX %s class builds a property for another spec version" % mv[1], file=mod.relpath,
+                                  line=call.lineno, function=cls.qualname, expected="%s='%s'" % (vp[0], mv[1]), found=norm(e))
+    if only_callees is None:
+        run.extra["version_in_scope_sites"] = n
+        run.floor(rule_id, 300)
